@@ -232,6 +232,7 @@ func (e *Exec) builtin(s *State, site ssa.Instruction, cc *ssa.CallCommon, res s
 		nc := c.I("(* %s %d)", n, cells(et))
 		e.frameCheck(s, site, d[0], d[1], c.I("(+ %s %s)", d[1], nc))
 		e.copyRange(s, et, d[0], d[1], sr[0], sr[1], nc)
+		c.assume(s.pc, c.B("(and (<= 0 %s) (<= %s %s) (<= %s %s))", n, n, d[2], n, sr[2]))
 		e.setRes(s, res, Val{n})
 	case "ssa:wrapnilchk":
 		e.setRes(s, res, e.val(s, cc.Args[0]))
@@ -877,6 +878,8 @@ func (e *Exec) enter(s *State) {
 // backEdge: obligations at the back-edge of a loop that is cut by its invariant.
 func (e *Exec) backEdge(from, to *ssa.BasicBlock, cond string, s *State) {
 	c := e.c
+	e.invHeader = to
+	defer func() { e.invHeader = nil }()
 	pc := c.and(s.pc, cond)
 	ls := e.loopSpec(to)
 	ord := e.loopOrd[to]
@@ -944,6 +947,9 @@ func (e *Exec) unroll(b *ssa.BasicBlock, ins []edge, k int, complete bool, outer
 	}
 	ord := e.loopOrd[b]
 	cur := ins
+	curIt := 0
+	laneSeen := map[string]bool{}
+	defer func() { e.root.nlanes += len(laneSeen) }()
 	for it := 0; len(cur) > 0; it++ {
 		if it == k {
 			for _, ed := range cur {
@@ -958,6 +964,21 @@ func (e *Exec) unroll(b *ssa.BasicBlock, ins []edge, k int, complete bool, outer
 				c.bounded = fmt.Sprintf("bounded: %s", strings.Join(e.root.boundedBy, "; "))
 			}
 			break
+		}
+		// invariants written on an unrolled loop are intermediate lemmas: checked, then
+		// assumed, at every visit of the header (no havoc: the state is exact)
+		if ls := e.loopSpec(b); ls != nil && len(ls.Invs) > 0 {
+			ms := e.merge(cur)
+			if ms.pc != "false" {
+				e.enter(ms)
+				e.invHeader = b
+				env := e.envAt(ms, true)
+				for _, inv := range ls.Invs {
+					e.obligeClause("inv-unrolled", fmt.Sprintf("loop%d:%s", ord, inv.Label), inv, ms.pc, env)
+				}
+				e.invHeader = nil
+				cur = []edge{{from: cur[0].from, cond: "true", st: ms}}
+			}
 		}
 		local := map[*ssa.BasicBlock][]edge{b: cur}
 		var next []edge
@@ -974,9 +995,19 @@ func (e *Exec) unroll(b *ssa.BasicBlock, ins []edge, k int, complete bool, outer
 				}
 				local[to] = append(local[to], edge{from: from, cond: cond, st: s.clone()})
 			default:
-				outer(from, to, cond, s)
+				// leaving the loop after `it` iterations: a lane of its own (no merge with
+				// the exits of other iterations) while the lane budget lasts
+				if e.root.nlanes < 48 {
+					s2 := s.clone()
+					s2.lane = fmt.Sprintf("%s/%d.%d", s.lane, ord, curIt)
+					laneSeen[s2.lane] = true
+					outer(from, to, cond, s2)
+				} else {
+					outer(from, to, cond, s)
+				}
 			}
 		}
+		curIt = it
 		for blk := range body {
 			delete(e.doneBlk, blk)
 		}
@@ -995,10 +1026,36 @@ func (e *Exec) execRegion(order []*ssa.BasicBlock, incoming map[*ssa.BasicBlock]
 		if e.doneBlk[b] {
 			continue
 		}
-		ins := incoming[b]
-		if len(ins) == 0 {
+		all := incoming[b]
+		if len(all) == 0 {
 			continue
 		}
+		// one pass per lane
+		var lanes []string
+		byLane := map[string][]edge{}
+		for _, ed := range all {
+			if _, ok := byLane[ed.st.lane]; !ok {
+				lanes = append(lanes, ed.st.lane)
+			}
+			byLane[ed.st.lane] = append(byLane[ed.st.lane], ed)
+		}
+		sort.Strings(lanes)
+		if len(lanes) > 1 {
+			for _, ln := range lanes {
+				sub := map[*ssa.BasicBlock][]edge{b: byLane[ln]}
+				e.execRegion([]*ssa.BasicBlock{b}, sub, flow, unrolling)
+				delete(e.doneBlk, b)
+			}
+			if isLoopHeader(b) && b != unrolling {
+				if k, _ := e.unrollFor(b); k > 0 {
+					for blk := range naturalLoop(b) {
+						e.doneBlk[blk] = true
+					}
+				}
+			}
+			continue
+		}
+		ins := all
 		if isLoopHeader(b) && b != unrolling {
 			if k, complete := e.unrollFor(b); k > 0 {
 				e.unroll(b, ins, k, complete, flow)
@@ -1094,6 +1151,8 @@ func (e *Exec) execRegion(order []*ssa.BasicBlock, incoming map[*ssa.BasicBlock]
 // loopHead: a loop cut by its invariant: check it on entry, havoc, assume it.
 func (e *Exec) loopHead(b *ssa.BasicBlock, s *State) {
 	c := e.c
+	e.invHeader = b
+	defer func() { e.invHeader = nil }()
 	ord := e.loopOrd[b]
 	ls := e.loopSpec(b)
 	body := naturalLoop(b)
